@@ -29,7 +29,11 @@ def specs(tier):
             spec('skipq-M3', 'M3', 'development/4.3', 'development/4.3',
                  skip=True, depth=7),
             spec('noq-nooct-D2', 'D2', 'development/4.3', 'development/4.3',
-                 queue=False, options=['no_octopus'], pushes=1, depth=6),
+                 queue=False, options=['no_octopus'], pushes=1, depth=5),
+            # builds bypassed: depth is spent on merges (3 targets, octopus)
+            spec('noq-S3-same-nobuild', 'S3', 'stabilization/4.3.18',
+                 'stabilization/4.3.18', queue=False, depth=4, pushes=1,
+                 options=['bypass_build_status'], statuses_int=[]),
         ]
     out = []
     admin = [['rebuild_queues'], ['delete_queues'], ['force_merge']]
@@ -47,6 +51,9 @@ def specs(tier):
         for mode, kw in [('q', dict()), ('skipq', dict(skip=True)),
                          ('noq', dict(queue=False))]:
             for octo in ((), ('no_octopus',)):
+                if octo and d1 != d2:
+                    continue    # consecutive merges only differ from the
+                    # octopus when the first target has moved (same target)
                 name = '%s-%s-%s%s' % (mode, layout, 'same' if d1 == d2 else 'diff', '-nooct' if octo else '')
                 extra = {}
                 if mode != 'noq' and not octo:
